@@ -121,6 +121,7 @@ def main(argv=None):
     ap.add_argument("--first", type=int, default=0, help="first run index")
     ap.add_argument("--no-evidence", action="store_true")
     ap.add_argument("--keep-going", action="store_true")
+    ap.add_argument("--digests", help="write {run: event-log digest} JSON here (determinism self-test)")
     a = ap.parse_args(argv)
     prop = a.prop
     if prop not in config.CHECKS:
@@ -188,9 +189,8 @@ def do_check(a, prop, spec, tier, S, wargs, errdir):
     nruns = a.runs if a.runs is not None else tier["runs"]
     wall_cap = a.wall if a.wall is not None else tier["wall"]
     hashseeds = list(tier["hashseeds"])
-    jobs = max(1, min(a.jobs, tier.get("jobs", a.jobs)))
-    if jobs < len(hashseeds):
-        hashseeds = hashseeds[:jobs]
+    # at least one worker per hash seed, so the run -> hash seed map never depends on the worker count
+    jobs = max(len(hashseeds), min(a.jobs, tier.get("jobs", a.jobs)))
     nverify = min(tier["verify"], nruns)
     known = load_known()
 
@@ -396,6 +396,10 @@ def do_check(a, prop, spec, tier, S, wargs, errdir):
         os.makedirs(os.path.join(VERIF, "evidence"), exist_ok=True)
         with open(os.path.join(VERIF, "evidence", prop + ".json"), "w") as f:
             json.dump(ev, f, indent=1, sort_keys=True)
+
+    if a.digests:
+        with open(a.digests, "w") as f:
+            json.dump({str(r): results[r]["digest"] for r in sorted(results)}, f)
 
     # ---- report
     print("{} tier={} seed={} runs={} ops={} checks={} states={} (after-fault {}) wall={:.1f}s jobs={} "
